@@ -11,7 +11,8 @@
 EXTENDS GQLCore
 
 FD(t, args) == [type |-> t, args |-> args]
-AD(n, t) == [n |-> n, type |-> t]
+AD(n, t) == [n |-> n, type |-> t, hasDef |-> FALSE, def |-> NullV]
+ADD(n, t, d) == [n |-> n, type |-> t, hasDef |-> TRUE, def |-> d]        \* with a default value
 S == Named("String")
 I == Named("Int")
 B == Named("Boolean")
@@ -36,7 +37,7 @@ UTypes ==
             obj   |-> FD(S, <<AD("in", Named("In")), AD("l", ListOf(S))>>) ] ],
     In |->
       [ kind |-> "INPUT_OBJECT", ifaces |-> <<>>, members |-> <<>>, fields |-> [x \in {} |-> 0],
-        infields |-> <<AD("a", S), AD("n", I), AD("l", ListOf(S))>> ],
+        infields |-> <<AD("a", S), ADD("n", I, IntV(7)), AD("l", ListOf(S))>> ],
     Mutation |->
       [ kind |-> "OBJECT", ifaces |-> <<>>, members |-> <<>>,
         fields |-> [ set |-> FD(S, <<AD("s", S)>>), a |-> FD(Named("A"), <<>>) ] ],
